@@ -16,6 +16,10 @@ pub struct Ctl {
     pub count_writes: AtomicBool,
     /// C13: run the small-buffer write workload instead of the main one
     pub small_buffer: AtomicBool,
+    /// write-back view of the underlying file: set by every underlying write, cleared by a successful underlying flush
+    pub dirty: AtomicBool,
+    /// the injected error has kind `Interrupted` (which `read_exact` / `write_all` retry) instead of `Other`
+    pub interrupted: AtomicBool,
 }
 
 impl Ctl {
@@ -28,6 +32,8 @@ impl Ctl {
             count_reads: AtomicBool::new(reads),
             count_writes: AtomicBool::new(writes),
             small_buffer: AtomicBool::new(false),
+            dirty: AtomicBool::new(false),
+            interrupted: AtomicBool::new(false),
         })
     }
     fn hit(&self, is_read_side: bool) -> io::Result<()> {
@@ -42,6 +48,9 @@ impl Ctl {
                 let bt = std::backtrace::Backtrace::force_capture().to_string();
                 let frames: Vec<&str> = bt.lines().filter(|l| l.contains("cfb::") && !l.contains("cfb_verif_harness")).map(|l| l.trim()).collect();
                 println!("FAULT-SITE call {}: {}", k, frames.join(" <- "));
+            }
+            if self.interrupted.load(Ordering::SeqCst) {
+                return Err(io::Error::new(io::ErrorKind::Interrupted, "injected fault (interrupted)"));
             }
             return Err(io::Error::other("injected fault"));
         }
@@ -65,11 +74,19 @@ impl Read for FaultyFile {
 impl Write for FaultyFile {
     fn write(&mut self, buf: &[u8]) -> io::Result<usize> {
         self.ctl.hit(false)?;
-        self.inner.write(buf)
+        let r = self.inner.write(buf);
+        if r.is_ok() {
+            self.ctl.dirty.store(true, Ordering::SeqCst);
+        }
+        r
     }
     fn flush(&mut self) -> io::Result<()> {
         self.ctl.hit(false)?;
-        self.inner.flush()
+        let r = self.inner.flush();
+        if r.is_ok() {
+            self.ctl.dirty.store(false, Ordering::SeqCst);
+        }
+        r
     }
 }
 impl Seek for FaultyFile {
@@ -317,23 +334,26 @@ pub fn read_campaign(seed: u64, pairs: u64, ops_path: &str, impl_path: &str) {
             println!("ORACLE fault-free run: {}", b);
         }
         let good = successes(&t0);
+        let interrupted = std::cell::Cell::new(false);
         let mut run = |a: u64, b: u64, traced: bool| {
             let ctl = Ctl::new(true, false);
             ctl.fail_a.store(a, Ordering::SeqCst);
             ctl.fail_b.store(b, Ordering::SeqCst);
+            ctl.interrupted.store(interrupted.get(), Ordering::SeqCst);
+            let kind = if interrupted.get() { " [kind Interrupted]" } else { "" };
             let mut tr = Vec::new();
             let r = catch(|| read_workload(&image, &streams, ctl.clone(), if traced { Some(&mut tr) } else { None }));
             match r {
-                Err(m) => println!("ORACLE fault at underlying call {} (and {}): panic: {}", a, b as i64, &m[..m.len().min(120)]),
+                Err(m) => println!("ORACLE fault at underlying call {} (and {}){}: panic: {}", a, b as i64, kind, &m[..m.len().min(120)]),
                 Ok((t, bad)) => {
                     for x in bad.iter().take(2) {
-                        println!("ORACLE fault at underlying call {} (and {}): {}", a, b as i64, x);
+                        println!("ORACLE fault at underlying call {} (and {}){}: {}", a, b as i64, kind, x);
                     }
                     let s = successes(&t);
                     // an `open` that failed 4 times legitimately ends the run
                     if t.iter().any(|l| l == "open ok") && s != good {
                         let i = s.iter().zip(good.iter()).position(|(x, y)| x != y).unwrap_or(s.len().min(good.len()));
-                        println!("ORACLE fault at underlying call {} (and {}): result {} differs from the fault-free result: {:?} vs {:?}", a, b as i64, i, s.get(i), good.get(i));
+                        println!("ORACLE fault at underlying call {} (and {}){}: result {} differs from the fault-free result: {:?} vs {:?}", a, b as i64, kind, i, s.get(i), good.get(i));
                     }
                 }
             }
@@ -368,6 +388,22 @@ pub fn read_campaign(seed: u64, pairs: u64, ops_path: &str, impl_path: &str) {
                 }
             }
         }
+        // the same positions with an error of kind `Interrupted`, which `read_exact` retries by itself: the call
+        // that was interrupted is repeated by the standard library, and the result must still be the fault-free one
+        interrupted.set(true);
+        for k in 0..n {
+            run(k, u64::MAX, false);
+            evaluations += 1;
+        }
+        for i in 0..(pairs / 4).min(n * n) {
+            let (a, b) = (rng.below(n), rng.below(n));
+            let _ = i;
+            if a < b {
+                run(a, b, false);
+                evaluations += 1;
+            }
+        }
+        interrupted.set(false);
         let total_pairs = if n <= 150 { n * n } else { pairs };
         for i in 0..total_pairs {
             let (a, b) = if n <= 150 { (i / n, i % n) } else { (rng.below(n), rng.below(n)) };
@@ -445,6 +481,9 @@ fn write_workload_small(version: Version, ctl: Arc<Ctl>) -> WriteRun {
                         }
                         "seek" => cursor = n,
                         _ => {
+                            if ctl.dirty.load(Ordering::SeqCst) {
+                                run.bad.push("flush on the small-buffer handle returned Ok but the underlying file was not flushed after its last write (a write-back underlying file does not have the bytes)".into());
+                            }
                             ctl.count_writes.store(false, Ordering::SeqCst);
                             let mut v = Vec::new();
                             let ok = comp.open_stream("/s").and_then(|mut f| f.read_to_end(&mut v)).is_ok();
@@ -529,6 +568,9 @@ fn write_workload(version: Version, ctl: Arc<Ctl>) -> WriteRun {
                         if f1 > f0 {
                             run.bad.push(format!("{} returned Ok although an underlying write/seek/flush failed during it (error swallowed)", $name));
                         }
+                        if $name.contains("flush") && ctl.dirty.load(Ordering::SeqCst) {
+                            run.bad.push(format!("{} returned Ok but the underlying file was not flushed after its last write", $name));
+                        }
                         run.transcript.push(format!("{} ok", $name));
                         result = r.ok();
                         break;
@@ -612,6 +654,10 @@ fn write_workload(version: Version, ctl: Arc<Ctl>) -> WriteRun {
                             "seek" => cursor = n,
                             "setlen" => { spec.resize(n, 0); cursor = cursor.min(n); }
                             _ => {
+                                // flush returned Ok: the underlying file has been flushed after its last write
+                                if ctl.dirty.load(Ordering::SeqCst) {
+                                    run.bad.push("flush on the handle returned Ok but the underlying file was not flushed after its last write (a write-back underlying file does not have the bytes)".into());
+                                }
                                 // flush returned Ok: every accepted byte must be read back by a fresh handle
                                 let mut v = Vec::new();
                                 // the oracle's own read-back must not consume the injected fault
